@@ -6,7 +6,7 @@
 From Coq Require Import ZArith List String.
 From GR Require Import Base.Result Dwarf.Leb128 Dwarf.Leb128Proofs Dwarf.IntCodec Dwarf.IntCodecProofs
      Dwarf.Types Gen.DwarfGen Dwarf.Codec Dwarf.CodecProofs Dwarf.InstProofs Dwarf.ConstOp
-     Dwarf.ConstOpProofs Dwarf.Std4 Dwarf.DirectiveProofs.
+     Dwarf.ConstOpProofs Dwarf.Std4 Dwarf.DirectiveProofs Dwarf.AsmSpec.
 Import ListNotations.
 Open Scope Z_scope.
 
@@ -113,6 +113,13 @@ Proof. exact parse_concat. Qed.
 Theorem C14_directive_reencode : forall (o : Codec.inst) big ps d ops bs,
   operands o big ps = Ok (d, ops) -> encode_inst o big ps = Ok bs -> reencode d ops big ps = Ok bs.
 Proof. exact directive_reencode. Qed.
+(* ... and an assembler that is given the directive emits the instruction's bytes: Dwarf/AsmSpec.v writes down, independently of
+   the class table, what GNU as / LLVM MC emit for the directives whose operands go into the encoding unchanged; every class that
+   is not handed over as .cfi_escape uses one of them, with operands that assemble to exactly its own encoding *)
+Theorem C14_directive_assembles : forall (o : Codec.inst) big ps d ops bs,
+  operands o big ps = Ok (d, ops) -> encode_inst o big ps = Ok bs -> String.eqb d ".cfi_escape" = false ->
+  asm_directive d ops = Some bs.
+Proof. exact directive_assembles. Qed.
 
 (* --- make_const_op: exactly the requested value, on exactly [-2^63, 2^64), shortest --- *)
 Theorem C14_const_op_pushes : forall v, - 2 ^ 63 <= v < 2 ^ 64 ->
